@@ -37,8 +37,19 @@ class C18(Prop):
         spec["prop"] = "C18"
         spec["cli"] = random_cli(R.fork("cli"), [c for c in spec["conns"] if c["proto"] in ("tls", "quic")],
                                  allow=("p", "m", "a", "c"))
-        other = gen.gen_mixed_world(R.fork("other"), cfg, nconn=R.range(1, 2))
+        if R.chance(50):
+            other = gen.gen_mixed_world(R.fork("other"), cfg, nconn=R.range(1, 2))
+        else:
+            # a world of the same shape (same number of key-log lines) but different randoms, secrets and data
+            import copy
+            other = {"conns": copy.deepcopy(spec["conns"]), "tap": gen.gen_tap(R.fork("othertap")), "policy": spec.get("policy")}
+            for c in other["conns"]:
+                c["sub"] = R.fork("othersub", c["id"]).bits(63)
+                if c.get("master_seed") is not None:
+                    c["master_seed"] = c["master_seed"] + 1
         spec["other"] = other
+        if R.chance(50):
+            spec["keychan"] = {"mode": "file", "early_lines": R.bits(30)}
         spec["cli_sub"] = (idx % 8 == 0)
         spec["hs2"] = [R.range(4, 1 << 31), R.range(4, 1 << 31)]
         return spec
